@@ -53,13 +53,27 @@ pub struct Scn {
     /// instance do): the offset observed earlier for this instance still applies
     #[serde(default)]
     pub completing_packet_unstamped: bool,
+    /// the FDT packets' EXT_TIME also carries the optional words a foreign sender may add next to the SCT
+    /// (bit 0: Expected Residual Time, bit 1: Session Last Changed)
+    #[serde(default)]
+    pub ext_time_extra: u8,
+    /// a session of this many instances (being-transferred mode, one object per instance; 0 = not this family):
+    /// the receiver's list of current instances overflows
+    #[serde(default)]
+    pub many_instances: u8,
 }
 
 /// The datagram as it is delivered: flute's own, or with EXT_TIME re-encoded as SCT-High only.
 fn on_wire(scn: &Scn, p: &Emitted) -> Vec<u8> {
-    if scn.sct && scn.sct_high_only && p.dec.toi == 0 && p.dec.sct.is_some() {
+    if scn.sct && (scn.sct_high_only || scn.ext_time_extra != 0) && p.dec.toi == 0 && p.dec.sct.is_some() {
         let mut b = wire::to_build(&p.dec);
-        b.sct_high_only = true;
+        b.sct_high_only = scn.sct_high_only;
+        if scn.ext_time_extra & 1 != 0 {
+            b.sct_ert = Some(7);
+        }
+        if scn.ext_time_extra & 2 != 0 {
+            b.sct_slc = Some(b.sct.map(|s| s.0).unwrap_or(0).wrapping_sub(3));
+        }
         wire::encode(&b)
     } else {
         p.bytes.clone()
@@ -110,6 +124,8 @@ pub fn gen(rng: &mut Rng, _tier: Tier) -> Scn {
         a_before_newer: rng.chance(0.3),
         fdt_spread_s: if rng.chance(0.2) { *rng.pick(&[3u64, 5, 9]) } else { 0 },
         completing_packet_unstamped: rng.chance(0.4),
+        ext_time_extra: if rng.chance(0.3) { rng.range(1, 3) as u8 } else { 0 },
+        many_instances: if rng.chance(0.12) { rng.range(9, 24) as u8 } else { 0 },
     }
 }
 
@@ -277,7 +293,111 @@ fn run_two(scn: &Scn, ctx: &Ctx, scratch: &Path) {
     c.note("two-instance-runs");
 }
 
+/// A session of many instances (one object each): the receiver keeps a bounded list of current instances.
+fn run_many(scn: &Scn, ctx: &Ctx, scratch: &Path) {
+    let n = scn.many_instances as usize;
+    let mut spec = SenderSpec::basic(OtiSpec::new(Scheme::NoCode, 1400, 64, 0, true));
+    spec.fdt_duration_ms = scn.duration_s * 1000;
+    spec.fdt_inband_sct = scn.sct;
+    spec.full_fdt = false;
+    if scn.id_wrap {
+        spec.fdt_start_id = 0xFFFFF - (n as u32 / 2);
+    }
+    spec.queues = vec![(0, 1)];
+    spec.fdt_carousel = CarouselSpec::DelayMs(1_000_000_000);
+    let (b, e) = (4u32, 8u16);
+    let objects: Vec<ObjectSpec> = (0..n)
+        .map(|i| {
+            let mut o = ObjectSpec::basic(30 + i, 0xC19 + i as u64, i);
+            o.oti = Some(OtiSpec::new(scn.scheme, e, b, if scn.scheme == Scheme::NoCode { 0 } else { 1 }, scn.inband));
+            o
+        })
+        .collect();
+    let mut poll = PollSpec::simple(1000);
+    poll.start_us = scn.publish_frac_us;
+    poll.idle_polls_after_done = 0;
+    let s = SenderScn { spec, objects, ops: (0..n).map(|i| TimedOp { when: When::AtUs(0), op: Op::Add(i) }).collect(), poll, snapshots: false };
+    let sess = match run_sender(&s, ctx, scratch) {
+        Some(x) => x,
+        None => return,
+    };
+    if sess.objs.len() != n {
+        return;
+    }
+    for off in &scn.offsets_s {
+        let mut recv = RecvSpec::basic();
+        recv.expiry_check = scn.check;
+        recv.object_timeout_ms = Some(1_000_000_000);
+        let monitor = Monitor::new(ctx, true, WriterFaults::default(), "r0");
+        let mut rr = RecvRun::new(&recv, ctx, monitor.clone(), false, "r0");
+        rr.offset_us = off * 1_000_000;
+        let ep = EndpointSpec::default_ep().build();
+        for p in &sess.trace.pkts {
+            rr.push(&ep, &on_wire(scn, p), p.t_us + scn.fdt_delay_us);
+        }
+        for (i, o) in sess.objs.iter().enumerate() {
+            let listing: Vec<&crate::fdtview::FdtTx> = sess.txs.iter().filter(|t| t.doc.as_ref().map(|d| d.files.iter().any(|f| f.toi == o.toi)).unwrap_or(false)).collect();
+            if listing.len() != 1 {
+                continue;
+            }
+            let t_e = sess.trace.pkts[listing[0].first].t_us;
+            let expires_us = ((t_e / 1_000_000 + scn.duration_s) * 1_000_000) as i128;
+            let t_o = match sess.trace.pkts.iter().find(|p| p.dec.toi == o.toi) {
+                Some(p) => p.t_us,
+                None => continue,
+            };
+            let shift = scn.fdt_delay_us as i128 + *off as i128 * 1_000_000;
+            let est_attach: i128 = if scn.sct { t_o as i128 } else { t_o as i128 + shift };
+            let est_rx: i128 = if scn.sct { t_e as i128 } else { t_e as i128 + shift };
+            let allowed = !scn.check || (est_attach <= expires_us && est_rx <= expires_us);
+            let margin = (est_attach - expires_us).abs().min((est_rx - expires_us).abs());
+            let (exact, wrong, failed) = completes_exact(&monitor, o);
+            if wrong > 0 {
+                violate(ctx, "C19/complete-wrong-bytes", "-", "many instances: complete with wrong bytes".into());
+            }
+            if scn.check && margin < 2_000_000 {
+                ctx.borrow_mut().note("relax:within-2s-of-expiry");
+                continue;
+            }
+            let class = if scn.sct { "many-instances-with-sct" } else { "many-instances-without-sct" };
+            if allowed && exact == 0 {
+                violate(
+                    ctx,
+                    "C19/unexpired-fdt-not-used",
+                    class,
+                    format!(
+                        "offset {} s, check={}, duration {} s, session of {} instances: object {} (toi={}), listed by instance {} which {}, was not delivered ({} failed writers)",
+                        off, scn.check, scn.duration_s, n, i, o.toi, listing[0].instance_id,
+                        if scn.check { "is unexpired on the estimated sender clock" } else { "cannot expire (check disabled)" }, failed
+                    ),
+                );
+            }
+            if !allowed && (exact > 0 || failed > 0) {
+                violate(
+                    ctx,
+                    if exact > 0 { "C19/delivered-through-expired-fdt" } else { "C19/failed-through-expired-fdt" },
+                    class,
+                    format!("offset {} s, duration {} s: object {} (toi={}) is listed only by an instance expired by {:.3} s on the estimated sender clock, yet {} complete / {} failed writers", off, scn.duration_s, i, o.toi, (est_attach.max(est_rx) - expires_us) as f64 / 1e6, exact, failed),
+                );
+            }
+        }
+        rr.drop_receiver();
+    }
+    let mut c = ctx.borrow_mut();
+    c.nontrivial = true;
+    if scn.offsets_s.iter().any(|o| *o != 0) {
+        c.count_fault("clock-skew");
+    }
+    if scn.sct && scn.ext_time_extra != 0 {
+        c.count_fault("ext-time-with-ert-slc");
+    }
+    c.note("many-instance-runs");
+}
+
 pub fn run(scn: &Scn, ctx: &Ctx, scratch: &Path) {
+    if scn.many_instances > 0 {
+        return run_many(scn, ctx, scratch);
+    }
     if scn.two_instances {
         return run_two(scn, ctx, scratch);
     }
@@ -412,6 +532,9 @@ pub fn run(scn: &Scn, ctx: &Ctx, scratch: &Path) {
     if scn.sct && scn.sct_high_only {
         c.count_fault("ext-time-sct-high-only");
     }
+    if scn.sct && scn.ext_time_extra != 0 {
+        c.count_fault("ext-time-with-ert-slc");
+    }
     if lost.is_some() {
         c.count_fault("drop-fdt-packet-completed-by-repetition");
     }
@@ -463,6 +586,8 @@ impl Prop for C19 {
         };
         push(&|n| n.jump_s = 0);
         push(&|n| n.sct_high_only = false);
+        push(&|n| n.ext_time_extra = 0);
+        push(&|n| n.many_instances = if n.many_instances > 11 { 11 } else { n.many_instances });
         push(&|n| n.id_wrap = false);
         push(&|n| n.a_before_newer = false);
         push(&|n| n.fdt_spread_s = 0);
